@@ -18,6 +18,9 @@ from compare_locales.compare.content import ContentComparer
 from compare_locales.compare.observer import Observer
 from compare_locales.lint.linter import L10nLinter
 from compare_locales.paths import File
+from xml import sax as _sax
+
+_real_make_parser = _sax.make_parser
 
 FNAME = {"properties": "a.properties", "ini": "a.ini", "inc": "a.inc", "po": "a.po", "dtd": "a.dtd"}
 STAT_KEYS = ["errors", "warnings", "missing", "missing_w", "report", "obsolete", "changed", "changed_w",
@@ -116,6 +119,64 @@ def merge_outcome(log, mergep, refp, l10p, l10n_bytes):
     return "written " + enc(data.decode("utf-8"))
 
 
+class _RecParser:
+    """stands in for the reader `xml.sax.make_parser()` returns: records every document handed to `parse()` together
+    with expat's verdict on it (what the model takes as the parameter `Ext.xml`)"""
+
+    def __init__(self, real, log):
+        self.__dict__["_real"] = real
+        self.__dict__["_log"] = log
+
+    def parse(self, src):
+        doc = src.getvalue()
+        try:
+            r = self._real.parse(src)
+        except _sax.SAXParseException as e:
+            self._log.append((doc, (e.getLineNumber(), e.getColumnNumber(), " ".join(e.args))))
+            raise
+        self._log.append((doc, None))
+        return r
+
+    def __getattr__(self, n):
+        return getattr(self._real, n)
+
+    def __setattr__(self, n, v):
+        setattr(self._real, n, v)
+
+
+def ext_tokens(xml_log, entities):
+    """the external functions as tables, in the wire form of Ops/C05.lean `parseExt`"""
+    seen, xs = set(), []
+    for doc, err in xml_log:
+        if doc in seen:
+            continue
+        seen.add(doc)
+        d = "t:" + ",".join(str(b) for b in doc)
+        if err is None:
+            xs.append("%s - 0 t: t:" % d)
+        else:
+            xs.append("%s %d %d %s t:" % (d, err[0], err[1], enc(err[2])))
+    us, useen = [], set()
+    for e in entities:
+        if isinstance(e, parser.Junk):
+            continue
+        raw = e.raw_val
+        if raw is None or "&" not in raw or raw in useen:
+            continue
+        useen.add(raw)
+        us.append("%s %s" % (enc(raw), enc(e.val)))
+    return " ".join(["X", str(len(xs))] + xs + ["U", str(len(us))] + us)
+
+
+def reset_junk(n=0):
+    """the state of a fresh process: `Junk.junkid = n`, and `XMLJunk` without a counter of its own (the first
+    `self.__class__.junkid += 1` of an XMLJunk creates one from the inherited value)"""
+    from compare_locales.parser.android import XMLJunk
+    parser.Junk.junkid = n
+    if "junkid" in XMLJunk.__dict__:
+        del XMLJunk.junkid
+
+
 def read_text(fname, path):
     p = type(parser.getParser(fname))()
     p.readFile(path)
@@ -142,8 +203,11 @@ def impl_pipeline(fmt, ref_latin, l10n_latin, with_merge):
         res["l10n_text"] = read_text(fname, l10p)
         mergep = os.path.join(root, "merge", fname) if with_merge else None
         log = []
+        xml_log = []
+        if fmt == "dtd":
+            _sax.make_parser = lambda *a, **k: _RecParser(_real_make_parser(*a, **k), xml_log)
         content_mod.shutil, content_mod.codecs = _Shutil(log), _Codecs(log)
-        parser.Junk.junkid = 0
+        reset_junk(0)
         cc = ContentComparer()
         cc.observers.append(Observer())
         try:
@@ -152,10 +216,12 @@ def impl_pipeline(fmt, ref_latin, l10n_latin, with_merge):
         except Exception as e:
             res["compare"] = "raise " + type(e).__name__
             res["compare_exc"] = exc_info(e)
+            from impl.robust import entity_junk_clash
+            res["compare_exc"]["entity_junk_clash"] = entity_junk_clash(fname, refp, l10p, 0)
         finally:
             content_mod.shutil, content_mod.codecs = saved
         for tag, rp in (("lint", refp), ("lint_noref", None)):
-            parser.Junk.junkid = 0
+            reset_junk(0)
             try:
                 results = list(L10nLinter().lint_file(l10p, rp, None))
                 res[tag] = "ok " + "|".join("%d,%d,%s,%s" % (r["lineno"], r["column"], enc(r["level"]), enc(r["message"]))
@@ -163,7 +229,298 @@ def impl_pipeline(fmt, ref_latin, l10n_latin, with_merge):
             except Exception as e:
                 res[tag] = "raise " + type(e).__name__
                 res[tag + "_exc"] = exc_info(e)
+        if fmt == "dtd":
+            _sax.make_parser = _real_make_parser
+            ents = []
+            for pth in (refp, l10p):
+                pp = type(parser.getParser(fname))()
+                pp.readFile(pth)
+                ents.extend(pp.walk(only_localizable=True))
+            res["ext"] = ext_tokens(xml_log, ents)
+    finally:
+        _sax.make_parser = _real_make_parser
+        content_mod.shutil, content_mod.codecs = saved
+        shutil.rmtree(root, ignore_errors=True)
+    return res
+
+
+def impl_decode(data_latin, which):
+    """`ctx.contents` after the real `Parser.readFile` of a file with these bytes (all parser classes share it)"""
+    names = ["a.properties", "a.dtd", "a.ini", "a.inc", "a.po", "a.ftl", "strings.xml"]
+    fname = names[which % len(names)]
+    base = os.environ.get("VERIF_TMP") or tempfile.gettempdir()
+    root = tempfile.mkdtemp(prefix="clv5d-", dir=base)
+    try:
+        path = os.path.join(root, fname)
+        with open(path, "wb") as f:
+            f.write(data_latin.encode("latin-1"))
+        p = type(parser.getParser(fname))()
+        p.readFile(File(path, fname, locale=None) if which % 2 else path)
+        return enc(p.ctx.contents)
+    finally:
+        shutil.rmtree(root, ignore_errors=True)
+
+
+# ---------------------------------------------------------------- Fluent / Android: the pipeline from the external parser's output on
+
+def _run_real(fname, refp, l10p, l10b, with_merge, root, res):
+    """the real compare (+ toJSON, merge file) and lint (with / without reference) on two files, fresh junk counter"""
+    mergep = os.path.join(root, "merge", fname) if with_merge else None
+    log = []
+    saved = (content_mod.shutil, content_mod.codecs)
+    content_mod.shutil, content_mod.codecs = _Shutil(log), _Codecs(log)
+    reset_junk(0)
+    cc = ContentComparer()
+    cc.observers.append(Observer())
+    try:
+        cc.compare(File(refp, fname, locale=None), File(l10p, fname, locale="de"), mergep)
+        res["compare"] = show_report(cc.observers.toJSON(), merge_outcome(log, mergep, refp, l10p, l10b))
+    except Exception as e:
+        res["compare"] = "raise " + type(e).__name__
+        res["compare_exc"] = exc_info(e)
+        from impl.robust import entity_junk_clash
+        res["compare_exc"]["entity_junk_clash"] = entity_junk_clash(fname, refp, l10p, 0)
     finally:
         content_mod.shutil, content_mod.codecs = saved
+    for tag, rp in (("lint", refp), ("lint_noref", None)):
+        reset_junk(0)
+        try:
+            results = list(L10nLinter().lint_file(l10p, rp, None))
+            res[tag] = "ok " + "|".join("%d,%d,%s,%s" % (r["lineno"], r["column"], enc(r["level"]), enc(r["message"]))
+                                        for r in results)
+        except Exception as e:
+            res[tag] = "raise " + type(e).__name__
+            res[tag + "_exc"] = exc_info(e)
+
+
+def _two_files(fname, ref_latin, l10n_latin):
+    base = os.environ.get("VERIF_TMP") or tempfile.gettempdir()
+    root = tempfile.mkdtemp(prefix="clv5q-", dir=base)
+    os.makedirs(os.path.join(root, "ref"))
+    os.makedirs(os.path.join(root, "l10n"))
+    refp = os.path.join(root, "ref", fname)
+    l10p = os.path.join(root, "l10n", fname)
+    refb, l10b = ref_latin.encode("latin-1"), l10n_latin.encode("latin-1")
+    with open(refp, "wb") as f:
+        f.write(refb)
+    with open(l10p, "wb") as f:
+        f.write(l10b)
+    return root, refp, l10p, l10b
+
+
+class _EqClasses:
+    """classes of Fluent entities under the real `FluentEntity.equals` (only entities of one key are ever compared)"""
+
+    def __init__(self):
+        self.reps = {}
+        self.n = 0
+
+    def of(self, x):
+        reps = self.reps.setdefault(x.key, [])
+        for r, i in reps:
+            if type(x) is type(r) and x.equals(r):
+                return i
+        self.n += 1
+        reps.append((x, self.n))
+        return self.n
+
+
+def ftl_body_tokens(path, classes):
+    """`resource.body` of the external parser for the file as the model's input: kinds, spans, and per Message / Term the
+    AST (wire form of Ops/C08), `count_words()` and the class under `equals` — the last two from the real entity objects"""
+    from fluent.syntax import ast as ftl
+    from impl.fluentcheck import ser_entry
+    p = type(parser.getParser("a.ftl"))()
+    p.readFile(path)
+    text = p.ctx.contents
+    try:
+        ents = {e.span[0]: e for e in p.walk(only_localizable=True) if hasattr(e, "entry")}
+        body = p.ftl_parser.parse(text).body
+    except Exception as e:       # the external parser raised (RecursionError on deep nesting): that outcome is the model's input
+        return text, "! %s %s" % (enc(type(e).__name__), enc(str(e)))
+    toks = [str(len(body))]
+    for entry in body:
+        s, e = entry.span.start, entry.span.end
+        ks = ke = vs = ve = -1
+        if isinstance(entry, ftl.Term):
+            k, ks, ke = "T", entry.id.span.start - 1, entry.id.span.end
+        elif isinstance(entry, ftl.Message):
+            k, ks, ke = "M", entry.id.span.start, entry.id.span.end
+        elif isinstance(entry, ftl.Junk):
+            k = "J"
+        elif isinstance(entry, ftl.BaseComment):
+            k = "C"
+        else:
+            k = "O"
+        if k in "MT" and entry.value is not None:
+            vs, ve = entry.value.span.start, entry.value.span.end
+        toks.append("%s %d %d %d %d %d %d" % (k, s, e, ks, ke, vs, ve))
+        if k in "MT":
+            ent = ents[s]
+            toks.append("A %d %d %s" % (ent.count_words(), classes.of(ent), ser_entry(entry)))
+        else:
+            toks.append("-")
+    return text, " ".join(toks)
+
+
+def impl_pipeline_ftl(ref_latin, l10n_latin, with_merge):
+    fname = "a.ftl"
+    root, refp, l10p, l10b = _two_files(fname, ref_latin, l10n_latin)
+    res = {}
+    try:
+        _run_real(fname, refp, l10p, l10b, with_merge, root, res)
+        classes = _EqClasses()
+        res["ref_text"], res["ref_body"] = ftl_body_tokens(refp, classes)
+        res["l10n_text"], res["l10n_body"] = ftl_body_tokens(l10p, classes)
+    finally:
+        shutil.rmtree(root, ignore_errors=True)
+    return res
+
+
+def android_item_tokens(path):
+    """the objects `AndroidParser.walk(only_localizable=True)` yields for the file, as the model's input"""
+    from impl.android import node_tokens
+    from compare_locales.parser.android import XMLJunk
+    p = type(parser.getParser("strings.xml"))()
+    p.readFile(path)
+    text = p.ctx.contents
+    items = list(p.walk(only_localizable=True))
+    toks = [str(len(items))]
+    for e in items:
+        if isinstance(e, XMLJunk):
+            toks.append("J " + enc(e.all))
+        else:
+            nt, _pre = node_tokens(e)
+            toks.append("E %s %s" % (enc(e.key), " ".join(nt)))
+    return text, " ".join(toks)
+
+
+def impl_pipeline_android(ref_latin, l10n_latin, with_merge):
+    fname = "strings.xml"
+    root, refp, l10p, l10b = _two_files(fname, ref_latin, l10n_latin)
+    res = {}
+    try:
+        _run_real(fname, refp, l10p, l10b, with_merge, root, res)
+        res["ref_text"], res["ref_items"] = android_item_tokens(refp)
+        res["l10n_text"], res["l10n_items"] = android_item_tokens(l10p)
+    finally:
+        shutil.rmtree(root, ignore_errors=True)
+    return res
+
+
+def impl_rx_time(pattern, flags, text, mode):
+    """the real `re` on a text the step-counting model engine found super-quadratic: just run it (under the pool's watchdog)"""
+    import re
+    import time
+    rx = re.compile(pattern, flags)
+    t = time.time()
+    if mode == "search":
+        rx.search(text)
+    else:
+        rx.match(text)
+    return {"seconds": time.time() - t}
+
+
+# ---------------------------------------------------------------- ContentComparer.add / remove, compare with a filtering observer
+
+def make_filter(k):
+    """the filter family `Pipe.testFilter k` of the model"""
+    R = ["error", "warning", "ignore"]
+
+    def flt(file, entity=None):
+        if entity is None:
+            return R[k % 3]
+        if isinstance(entity, str):
+            return R[(len(entity) + k) % 3]
+        return R[((len(entity[0]) if entity and entity[0] is not None else 0) + k) % 3]
+    return flt
+
+
+def impl_files(fmt, ref_latin, l10n_latin, with_merge, k):
+    """`cc.compare` with `Observer(filter=…)`, `cc.add`, `cc.remove` on the two files; k = None: unfiltered Observer"""
+    fname = FNAME[fmt]
+    root, refp, l10p, l10b = _two_files(fname, ref_latin, l10n_latin)
+    res = {}
+    saved = (content_mod.shutil, content_mod.codecs)
+    try:
+        res["ref_text"] = read_text(fname, refp)
+        res["l10n_text"] = read_text(fname, l10p)
+        xml_log = []
+        if fmt == "dtd":
+            _sax.make_parser = lambda *a, **kw: _RecParser(_real_make_parser(*a, **kw), xml_log)
+        for op in ("comparef", "addfile", "removefile"):
+            mergep = os.path.join(root, "merge-" + op, fname) if with_merge else None
+            log = []
+            content_mod.shutil, content_mod.codecs = _Shutil(log), _Codecs(log)
+            reset_junk(0)
+            cc = ContentComparer()
+            cc.observers.append(Observer() if k is None else Observer(filter=make_filter(k)))
+            reff, l10f = File(refp, fname, locale=None), File(l10p, fname, locale="de")
+            try:
+                if op == "comparef":
+                    cc.compare(reff, l10f, mergep)
+                elif op == "addfile":
+                    cc.add(reff, l10f, mergep)
+                else:
+                    cc.remove(reff, l10f, mergep)
+                res[op] = show_report(cc.observers.toJSON(), merge_outcome(log, mergep, refp, l10p, l10b))
+            except Exception as e:
+                res[op] = "raise " + type(e).__name__
+                res[op + "_exc"] = exc_info(e)
+                if op == "comparef":
+                    from impl.robust import entity_junk_clash
+                    res[op + "_exc"]["entity_junk_clash"] = entity_junk_clash(fname, refp, l10p, 0)
+            finally:
+                content_mod.shutil, content_mod.codecs = saved
+        if fmt == "dtd":
+            _sax.make_parser = _real_make_parser
+            ents = []
+            for pth in (refp, l10p):
+                pp = type(parser.getParser(fname))()
+                pp.readFile(pth)
+                ents.extend(pp.walk(only_localizable=True))
+            res["ext"] = ext_tokens(xml_log, ents)
+    finally:
+        _sax.make_parser = _real_make_parser
+        content_mod.shutil, content_mod.codecs = saved
+        shutil.rmtree(root, ignore_errors=True)
+    return res
+
+
+def impl_files_odd(kind, ref_latin, with_merge):
+    """compare / add / remove where no parser exists for the file name, or a file cannot be read: execution only
+    (the report texts are OS messages); returns per operation "ok <n details>" or the exception"""
+    fname = "a.txt" if kind == "noparser" else "a.properties"
+    root, refp, l10p, l10b = _two_files(fname, ref_latin, ref_latin)
+    res = {}
+    try:
+        if kind == "l10n-unreadable":
+            os.remove(l10p)
+            os.makedirs(l10p)               # open() raises IsADirectoryError
+        elif kind == "ref-unreadable":
+            os.remove(refp)
+            os.makedirs(refp)
+        for op in ("compare", "add", "remove"):
+            mergep = os.path.join(root, "merge-" + op, fname) if with_merge else None
+            cc = ContentComparer()
+            cc.observers.append(Observer())
+            reff, l10f = File(refp, fname, locale=None), File(l10p, fname, locale="de")
+            try:
+                if op == "compare":
+                    cc.compare(reff, l10f, mergep)
+                elif op == "add":
+                    cc.add(reff, l10f, mergep)
+                else:
+                    cc.remove(reff, l10f, mergep)
+                rep = cc.observers.toJSON()
+                items = []
+                for _, its in leaves(rep["details"], [], []):
+                    items += its
+                bad = [it for it in items if not (isinstance(it, dict) and len(it) == 1)]
+                res[op] = "ok %d %s" % (len(items), "malformed" if bad else "wf")
+            except Exception as e:
+                res[op] = "raise " + type(e).__name__
+                res[op + "_exc"] = exc_info(e)
+    finally:
         shutil.rmtree(root, ignore_errors=True)
     return res
